@@ -87,7 +87,11 @@ func vh14Corpus() []vhloopScn {
 	for _, k := range kinds {
 		steps := append([]vhloopStep{}, k.pre...)
 		steps = append(steps, vhloopSend(k.f), vhloopSend(vhloopFlush(2, 1)), vhloopSend(vhloopFlush(10, 777)), vhloopSend(vhloopFlush(3, 2)),
-			vhloopSend(vhloopFrame{K: "badtype", Tag: 11}), vhloopSend(vhloopFlush(12, 777)), vhloopRel(k.f.Gate, 0), vhloopSend(vhloopFlush(4, 1)))
+			vhloopSend(vhloopFrame{K: "badtype", Tag: 11}), vhloopSend(vhloopFlush(12, 777)),
+			// the gate stays shut a little longer: a reply or Rflush that does not wait for the backend call then arrives
+			// before the release even when the handler's goroutine is descheduled for a while (loaded machine)
+			vhloopStep{Op: "hold", Mode: 30},
+			vhloopRel(k.f.Gate, 0), vhloopSend(vhloopFlush(4, 1)))
 		l = append(l, vhloopScn{Name: "flush-" + k.name, NConn: 1, NFid: 7, Kinds: "rrddDul", Steps: steps})
 	}
 	// the gate stays shut for a while: an Rflush that gives up waiting after some time arrives before the release
